@@ -342,7 +342,7 @@ func (w *walker) cond(e ast.Expr, st *state, kt, kf func(*state)) {
 				ev.Int |= 2
 			}
 			w.emit(st, ev)
-			if !forced && !(ki.shared && len(st.locks) == 0) {
+			if !forced && !(ki.shared && len(st.locks) == 0 && !w.cfg.SharedFacts) {
 				w.setFact(st, ki, val != neg)
 			}
 			if val {
@@ -486,7 +486,7 @@ func (w *walker) store(lhs ast.Expr, val Value, node ast.Node, rhs ast.Expr, idx
 		if tok == token.ASSIGN || tok == token.DEFINE {
 			ki := keyInfo{pure: true}
 			key := w.exprKey(lhs, fr, st, &ki)
-			if ki.pure && !(ki.shared && len(st.locks) == 0) {
+			if ki.pure && !(ki.shared && len(st.locks) == 0 && !w.cfg.SharedFacts) {
 				switch {
 				case val.Kind == VBool:
 					ki.key = key
